@@ -121,8 +121,34 @@ def build_inputs(case, use_jax):
     bl = [{'x': mk('client %r batch %d x' % (cid, j), b[0], [len(b[0])], False),
            'y': mk('client %r batch %d y' % (cid, j), b[1], [len(b[1])], True)} for j, b in enumerate(batches)]
     ci = tuple(mk('client %r input[%d]' % (cid, k), cin[k], lp['shape'], lp['int']) for k, lp in enumerate(leaves))
-    clients.append((cid, bl, ci))
+    clients.append((_ext_id(case, cid), iter(bl) if case.get('lazy') else bl, ci))
   return shared, clients, handles
+
+
+def _ext_id(case, cid):
+  """The client id as given to fedjax: any hashable (int, bytes or str)."""
+  kind = case.get('idkind', 'int')
+  if kind == 'bytes':
+    return b'c%d' % cid
+  if kind == 'str':
+    return 'c%d' % cid
+  return cid
+
+
+def _int_id(case, x):
+  kind = case.get('idkind', 'int')
+  try:
+    if x is None:
+      return None
+    if kind == 'bytes' and isinstance(x, bytes) and x[:1] == b'c':
+      return int(x[1:])
+    if kind == 'str' and isinstance(x, str) and x[:1] == 'c':
+      return int(x[1:])
+    if kind == 'int' and isinstance(x, int) and not isinstance(x, bool):
+      return x
+  except ValueError:
+    pass
+  return repr(x)
 
 
 def _canon_leaf(np, x):
@@ -168,7 +194,7 @@ def run_backend(case, backend):
       else:
         cid, out = item
         res_c = None
-      o['yields'].append({'id': cid if (cid is None or isinstance(cid, int)) else repr(cid),
+      o['yields'].append({'id': _int_id(case, cid),
                           'out': _canon_tree(np, jax, out), 'res': res_c})
   except Exception as ex:  # pylint: disable=broad-except
     o['err'] = 'E' + type(ex).__name__
